@@ -25,7 +25,8 @@ THEOREMS = [
     "angle_net_force_zero", "angle_net_torque_zero", "angle_gradient_balanced",
     "bending_hinge_balanced", "bending_net_force_zero", "bending_net_torque_zero",
     "hinges_consistently_oriented", "closed_sides_paired",
-    "internal_net_force_zero", "internal_net_torque_zero", "sum_node_forces", "orchestration_order",
+    "internal_net_force_zero", "internal_net_torque_zero", "sum_node_forces", "slots_net_force_torque_zero", "slots_fresh",
+    "orchestration_order",
     "forces_translation_equivariant", "forces_rotation_equivariant", "node_force_rotation_equivariant",
     "rot_axis_x", "rot_axis_y", "rot_axis_z", "rot_comp", "rot_of_orthonormal_rows", "hinge_example",
 ]
@@ -656,6 +657,7 @@ def run(ctx):
             "identities assumed of the non-field functions, as hypotheses of the theorems, pointwise at the mesh: sqrt(y)^2 = y (face doubled areas, edge lengths); cot(angle(u,v)) * 2*area = u.v (i.e. cot(acos(u.v/|u||v|)) = u.v/|u x v|); cos(+-pi/2) = 0; sin(-pi/2) = -sin(pi/2); `==` is equality; isfinite is always true (rotation theorem only)",
             "almost_equal / isfinite / isnan enter as opaque Boolean functions (Float instance re-implements utils.hpp almost_equal)",
             "compute_volume returns |signed volume|: F = P dV is stated for the signed volume (outward orientation makes it positive)",
+            "cells with unused slots: the stored edge set (which face is f1) is an input of the slot model (dumped by the harness); that it matches the used faces is checked at run time, not proved",
         ],
         "theorems": {k: v for k, v in proof["axioms"].items()},
         "proof_failures": proof["failures"],
